@@ -215,6 +215,12 @@ func (r *Result) Add(f Finding) {
 	}
 	if len(r.Findings) < 200 {
 		r.Findings = append(r.Findings, f)
+		return
+	}
+	// the list is full (of disagreements, typically): a violation - the property's own oracle failing - is still kept,
+	// it is what turns a broken tie into a concrete failing input
+	if f.Kind == "violation" && len(r.Findings) < 230 {
+		r.Findings = append(r.Findings, f)
 	}
 }
 
